@@ -101,6 +101,13 @@ CONFIGS = {
                alphabet=[I("hold", 1), I("acq", 1), I("rel", 1), I("pre", 1), I("cwait", 0), I("cwait", 2), I("setflag", 0, 1), I("csig"), I("csub", 0), I("intr", 1, 9, 0),
                          I("stop", 1, 5), I("prio", 2, 2), I("tadd", 1, -5), I("tadd", 1, 7), I("ccancel", 1), I("cremove", 2)],
                roles=[["hold", "acq", "cwait", "tadd"], ["hold", "cwait", "rel", "acq"], ["hold", "pre", "setflag", "csig", "csub", "intr", "stop", "prio", "ccancel", "cremove"]]),
+  # four processes: holder, two waiters, a disturber of higher priority (grant pass-on, reordering, leaving waiters)
+  "x4res": dict(np=4, prio=[0, 0, 0, 1], auto=[1, 1, 1, 1], nres=1, poolcap=1, maxlen=3, maxtime=3,
+               alphabet=[I("hold", 1), I("acq", 1), I("rel", 1), I("tadd", 1, -5), I("intr", 2, 9, 0), I("intr", 2, 9, 5), I("stop", 2, 5), I("prio", 3, 2), I("pre", 1)],
+               roles=[["hold", "acq", "rel"], ["hold", "acq", "tadd"], ["hold", "acq", "rel"], ["hold", "intr", "stop", "prio", "pre"]]),
+  "x4pool": dict(np=4, prio=[0, 0, 0, 1], auto=[1, 1, 1, 1], nres=1, poolcap=2, maxlen=3, maxtime=3,
+               alphabet=[I("hold", 1), I("pacq", 1), I("pacq", 2), I("prel", 1), I("prel", 2), I("tadd", 1, -5), I("intr", 2, 9, 0), I("stop", 2, 5), I("prio", 3, 2), I("ppre", 1)],
+               roles=[["hold", "pacq", "prel"], ["hold", "pacq", "tadd"], ["hold", "pacq", "prel"], ["hold", "intr", "stop", "prio", "ppre"]]),
   # subscribe / unsubscribe: is a release forwarded exactly while the condition is registered?
   "cond2u": dict(np=2, prio=[0, 0], auto=[1, 1], nres=1, poolcap=1, maxlen=5, maxtime=4,
                alphabet=[I("hold", 1), I("cwait", 2), I("csub", 0), I("cunsub", 0), I("acq", 1), I("rel", 1)]),
